@@ -144,6 +144,8 @@ CHECKS["C03"] = dict(
         # a cross-thread event handler recycles the owner's descriptor object (same struct, fresh idle descriptor) while the
         # old descriptor's readiness may sit in the same poll batch
         R("h_event_mt", "bound=2 transports=0-3 p1=3,4 p2=0,3 hacts=1 abn_ignore=1", sched=True),
+        # the application replaces ->cookie from inside a handler (allowed at any time): later bands of the same round get the new one
+        R("h_loop", "bound=2 seeds=3,22,29 nfd=2 ntm=0 ntk=0 nev=0 ops=leave,fdcookie,fdseth abn_ignore=1 nofree=1 rules=fd-spurious,fd-wrong-handler,fd-twice,fd-cleared-handler,stale-callback,cookie"),
     ],
     thorough=[
         R("h_loop", "bound=2 seeds=%s nfd=3 ntm=0 ntk=1 nev=0 ops=%s abn_ignore=1 nofree=1 rules=fd-spurious,fd-wrong-handler,fd-twice,fd-cleared-handler,stale-callback,cookie" % (FD_SEEDS, FD_OPS)),
@@ -168,6 +170,9 @@ CHECKS["C04"] = dict(
         R("h_loop", "bound=2 seeds=25 nfd=0 ntm=7 ntk=0 nev=0 horizon=12 ops=leave,tmunreg,tmreg rules=timer-early,timer-twice,oversleep,stale-callback,oneshot-registered,%s" % ABN),
         # the kernel-timer optimisation without a timerfd (timerfd_create -> ENOSYS when it first engages)
         R("h_loop", "bound=1 seeds=16,17,30 nfd=1 ntm=3 ntk=1 nev=0 horizon=14 absent=2 ops=leave,tmreg,tmunreg,feed rules=timer-early,timer-twice,oversleep,stale-callback,oneshot-registered,%s" % ABN),
+        # the only timer is 30 days away: more milliseconds than fit an int (poll / epoll_wait take int milliseconds)
+        R("h_loop", "bound=1 seeds=38 nfd=1 ntm=1 ntk=0 nev=0 ops=leave,feed rules=timer-early,timer-twice,oversleep,%s" % ABN),
+        R("h_loop", "bound=1 seeds=38 nfd=1 ntm=1 ntk=0 nev=0 absent=1 ops=leave,feed rules=timer-early,timer-twice,oversleep,%s" % ABN),
         # the optimisation engaged, disarmed by a task burst (zero-timeout polls), and needed again for the same deadline
         R("h_loop", "bound=1 seeds=36,16,18 nfd=1 ntm=1 ntk=1 nev=0 horizon=20 ops=leave,tkreg,tkunreg,feed rules=timer-early,timer-twice,oversleep,%s" % ABN),
     ],
@@ -194,6 +199,8 @@ CHECKS["C06"] = dict(
         R("h_loop", "bound=3 tkkeep=1 seeds=9,6,10 nfd=1 ntm=0 ntk=3 nev=0 ops=leave,tkreg,tkunreg,feed rules=sleep-with-task,task-same-round,oneshot-registered,stale-callback,fd-starved,%s" % ABN),
         # wall-clock time passes (1 ms per loop iteration) while task chains keep the loop from sleeping: timers and descriptors must still be served
         R("h_loop", "bound=2 drift_ns=1000000 autotask=30 seeds=27,6,9 nfd=1 ntm=1 ntk=2 nev=0 horizon=40 ops=leave,tkreg,fdreg,feed,tmreg rules=timer-starved,fd-starved,task-same-round,%s" % ABN),
+        # a loop that has already gone round 65535 times (16-bit boundary of the per-loop round counter)
+        R("h_loop", "bound=2 epoch0=65535 seeds=9,6 nfd=1 ntm=0 ntk=2 nev=0 ops=leave,tkreg,tkunreg rules=sleep-with-task,task-same-round,oneshot-registered,stale-callback,%s" % ABN),
         # a task burst in the middle of a long run of descriptor wake-ups with one pending timer (kernel-timer optimisation engaged,
         # dropped for the zero-timeout polls, engaged again): the timer must still be served
         R("h_loop", "bound=1 seeds=36,16,18 nfd=1 ntm=1 ntk=1 nev=0 horizon=20 ops=leave,tkreg,tkunreg,feed rules=oversleep,timer-starved,sleep-with-task,task-same-round,%s" % ABN),
@@ -292,7 +299,9 @@ CHECKS["C08"] = dict(
            # owner-side posts, iv_quit from a handler, iv_main entered again
            R("h_loop", "bound=2 seeds=31,10,20 nfd=1 ntm=0 ntk=1 nev=2 ops=leave,evpost,evreg,evunreg,quit,tkreg rules=event-,main-,stale-callback,%s" % ABN),
            # owner-side post chains while the loop relies on an armed kernel timer for a far deadline
-           R("h_loop", "bound=2 seeds=37 nfd=1 ntm=1 ntk=1 nev=2 horizon=14 ops=leave,evpost rules=event-,main-,oversleep,stale-callback,%s" % ABN)],
+           R("h_loop", "bound=2 seeds=37 nfd=1 ntm=1 ntk=1 nev=2 horizon=14 ops=leave,evpost rules=event-,main-,oversleep,stale-callback,%s" % ABN),
+           # two loops; one thread's wake-up descriptor creation hits a descriptor shortage while the other thread's objects are live
+           R("h_loops_mt", "bound=2 cycles=1 emfile1=1", sched=True)],
     thorough=[R("h_event_mt", "bound=2 transports=0-4 hacts=2", sched=True, share=0.3),
               R("h_event_mt", "bound=3 transports=0-3 p1=0,1,3,4 p2=0,1,3 hacts=1", sched=True, share=0.6),
               R("h_event_mt", "bound=4 transports=0,2 p1=0,3 p2=0,1 hacts=0", sched=True, share=0.5),
@@ -342,7 +351,9 @@ CHECKS["C14"] = dict(
 CHECKS["C09"] = dict(
     quick=[R("h_raw", "bound=3", sched=True), R("h_loops_mt", "bound=2 cycles=2", sched=True),
            # raw objects next to other ready descriptors in one poll batch, iv_quit from a handler and re-entry of iv_main
-           R("h_loop", "bound=2 reenter=1 seeds=34,12,35 nfd=2 ntm=0 ntk=0 nev=0 nraw=2 nsig=1 ops=leave,quit,rawpost,rawunreg,fdunreg rules=raw-,main-,stale-callback,%s" % ABN)],
+           R("h_loop", "bound=2 reenter=1 seeds=34,12,35 nfd=2 ntm=0 ntk=0 nev=0 nraw=2 nsig=1 ops=leave,quit,rawpost,rawunreg,fdunreg rules=raw-,main-,stale-callback,%s" % ABN),
+           # a task that keeps re-registering itself (3 times) while posts are waiting
+           R("h_loop", "bound=2 autotask=3 seeds=34,12 nfd=1 ntm=0 ntk=1 nev=0 nraw=2 nsig=1 ops=leave,tkreg,rawpost rules=raw-,main-,stale-callback,%s" % ABN)],
     thorough=[R("h_raw", "bound=9 oposts=2", sched=True, share=0.6), R("h_loops_mt", "bound=4 cycles=3", sched=True)],
     rule="3 backings (eventfd2 / old eventfd / pipe shrunk to 4096 B) x 4 poll methods x 10 poster programs (1 post, 2 posts, burst of 5000 "
          "in one step, post from a signal handler running in the owner thread, post from a forked child, and pairs of these) x owner posting "
@@ -419,7 +430,9 @@ WAIT_ASSUME = MT_ASSUME + ["fork/wait4/kill of the library are served from a sim
 CHECKS["C11"] = dict(
     quick=[R("h_wait", "bound=1 steps=6", sched=True), R("h_wait", "bound=2 steps=1", sched=True),
            # two interests in one loop: a handler unregisters the other interest while its own further statuses are queued
-           R("h_wait", "bound=2 steps=2 pops=5", sched=True)],
+           R("h_wait", "bound=2 steps=2 pops=5", sched=True),
+           # the interest struct of a dead, reported child is used again to spawn the next child; kill helper on the new child
+           R("h_wait", "bound=2 steps=3 pops=0", sched=True)],
     thorough=[R("h_wait", "bound=2 steps=6", sched=True, share=0.7),
               R("h_wait", "bound=3 steps=2 pops=1,2,6", sched=True, share=0.7),
               R("h_wait", "bound=2 steps=3 method=2", sched=True)],
@@ -475,6 +488,9 @@ CHECKS["C15"] = dict(
         R("h_pump", "mode=splice bound=1 no_pipe2=1"),
         # pipe2() goes missing in mid-run, at any of the 18-26 calls made by pumps that need a fresh pipe
         R("h_pump", "mode=many bound=1 sc_fault=1"),
+        # descriptors unregistered (and left open) and registered again, band changes afterwards: same behaviour under all four methods
+        R("h_loop", "bound=2 seeds=2,15,24 nfd=3 ntm=0 ntk=0 nev=0 ops=leave,fdunreg,fdreg,fdseth,feed"),
+        R("h_loop", "bound=2 nofree=1 seeds=2,15 nfd=2 ntm=0 ntk=0 nev=0 ops=leave,fdunreg,fdreg,feed"),
     ],
     thorough=[
         R("h_loop", "bound=1 exclsets=1 seeds=11,6,12,16 nraw=1 nsig=1 nwk=1"),
